@@ -100,6 +100,12 @@ def recv (sd : Side) (sid seq closing : Nat) (pl : Bytes) (now inact : Nat) : Si
           let (sd, _) := ev sd .recvIncr
           let sd := setRB sd sid (RB.init 0)
           ((closeStream sd sid true now inact).1, false)
+        else if r == Res.refused && Gen.Session.refusedStreamToldFromQueue && !sd.sm.closed then
+          -- refused (accept backlog full; the id is a tombstone now) and queued for the teller, which sends one
+          -- stream-closing frame for it; a failing send tears the session down, as every failing send does
+          -- (the queue is as long as the backlog: assumed not full)
+          if sd.wfail then ((sessClose sd false).1, false)
+          else ({ sd with csent := sd.csent + 1 }, false)
         else (sd, false)   -- refused: the accept backlog is full; the id is now a tombstone
     match entOf sd sid with
     | some .tomb => (sd, "dropped")
